@@ -514,10 +514,47 @@ func TestC20FakeIndex(t *testing.T) {
 				query(lbl + ".q")
 			}
 		}
+		// a long-lived indexer: now and then thousands of events (2^8, 2^16, 2^16+1, 2^17 of them - two events of one
+		// creator in turn) are processed between two queries
+		longBatch := 0
+		if uni.Int(t, "longBatchBetweenQueries", 1500) == 7 {
+			query("preBatch")
+			c := uni.Int(t, "batch.creator", n)
+			self := c == me
+			var evs [2]*tdag.TestEvent
+			var ids [2]hash.Event
+			for k := range evs {
+				ids[k] = newEvent(fmt.Sprintf("batch%d", k))
+				ev := &tdag.TestEvent{}
+				ev.SetCreator(vs.ids[c])
+				ev.SetSeq(1)
+				ev.SetEpoch(1)
+				ev.SetLamport(1)
+				ev.SetParents(hash.Events{})
+				var raw [24]byte
+				copy(raw[:], ids[k][8:])
+				ev.SetID(raw)
+				evs[k] = ev
+			}
+			longBatch = rapid.SampledFrom([]int{256, 65536, 65536, 65537}).Draw(t, "batch.events")
+			for i := 0; i < longBatch; i++ {
+				qi.ProcessEvent(evs[i%2], self)
+			}
+			last := ids[(longBatch-1)%2]
+			latest[c] = obsByID[last]
+			if self {
+				selfObs = obsByID[last]
+			}
+			processedSinceQuery = true
+			log = append(log, fmt.Sprintf("process x%d (creator index %d, self=%v, two events in turn, last obs=%s)", longBatch, c, self, fmtVec(obsByID[last])))
+		}
 		query("final")
 
 		nontrivial := agg.forkChangesMedian || agg.medianIsFork || agg.unprocessed
 		extra := []string{vs.class}
+		if longBatch > 0 {
+			extra = append(extra, "thousands_of_events_between_two_queries")
+		}
 		if requery {
 			extra = append(extra, "requery_after_process")
 		}
